@@ -46,7 +46,7 @@ namespace Givaro {
     inline typename MOD::Element&
     MOD::init(Element& r, const Source a) const
     {
-        r = Caster<Element>(std::abs(a) % Caster<Source>(_p));
+        r = Caster<Element>(std::abs(a % Caster<Source>(_p)));
         if (a < 0) negin(r);
         return r;
     }
